@@ -48,6 +48,8 @@ def run_case(case):
     from frequenz.sdk.microgrid._power_distributing.request import Request
 
     log: list = []
+    rid_of: dict[int, int] = {}          # id(Request object) -> sequence number: requests are told apart by IDENTITY
+    sent: list = []                      # keeps the objects alive (ids stay unique)
     modes: dict[int, list] = {}
     gates: dict[int, asyncio.Future] = {}
     loop = async_solipsism.EventLoop()
@@ -67,7 +69,7 @@ def run_case(case):
 
         def distribute_power(self, request):
             g = GROUP_OF[frozenset(request.component_ids)]
-            r = int(request.power.as_watts())
+            r = rid_of[id(request)]
             log.append(["S", g, r, now_us()])
             return self._go(g, r)
 
@@ -103,7 +105,10 @@ def run_case(case):
 
         def consume(self):
             request = self._inner.consume()
-            log.append(["A", GROUP_OF[frozenset(request.component_ids)], int(request.power.as_watts()), now_us()])
+            if request.component_ids is None:      # malformed: frozenset(None) raises in _run -> the Actor restarts _run
+                log.append(["R", "bad", now_us()])
+            else:
+                log.append(["A", GROUP_OF[frozenset(request.component_ids)], rid_of[id(request)], now_us()])
             return request
 
         def close(self):
@@ -126,12 +131,28 @@ def run_case(case):
             await asyncio.sleep(0)
         sender = req.new_sender()
         rid = 0
+        nbad = [0]
         for step in case["steps"]:
             op = step[0]
             if op == "req":
                 rid += 1
                 modes[rid] = [step[2], step[3]]
-                await sender.send(Request(Power.from_watts(float(rid)), GROUPS[step[1]]))
+                val = step[4] if len(step) > 4 else rid        # the VALUE may repeat; the identity never does
+                req_obj = Request(Power.from_watts(float(val)), GROUPS[step[1]])
+                rid_of[id(req_obj)] = rid
+                sent.append(req_obj)
+                await sender.send(req_obj)
+            elif op == "bad":
+                nbad[0] += 1
+                req_obj = Request(Power.from_watts(0.0), None)  # type: ignore[arg-type]
+                sent.append(req_obj)
+                await sender.send(req_obj)
+            elif op == "stopstart":
+                await actor.stop()
+                if step[1]:
+                    await asyncio.sleep(step[1] / 1000.0)
+                log.append(["R", "stopstart", now_us()])
+                actor.start()
             elif op == "rel":
                 fut = gates.get(step[1])
                 if fut is not None and not fut.done():
@@ -147,7 +168,8 @@ def run_case(case):
         for _ in range(200):
             for _ in range(6):
                 await asyncio.sleep(0)
-            if not actor._processing_tasks and not actor._pending_requests:
+            consumed = sum(1 for e in log if e[0] == "A" or (e[0] == "R" and e[1] == "bad"))
+            if not actor._processing_tasks and not actor._pending_requests and consumed == rid + nbad[0]:
                 break
             for fut in list(gates.values()):
                 if not fut.done():
@@ -164,7 +186,7 @@ def run_case(case):
         out = []
         for g, ids in sorted(GROUPS.items()):
             p = actor._pending_requests.get(ids)
-            out.append([g, ids in actor._processing_tasks, None if p is None else int(p.power.as_watts())])
+            out.append([g, ids in actor._processing_tasks, None if p is None else rid_of[id(p)]])
         return out
 
     asyncio.set_event_loop(loop)
@@ -193,6 +215,8 @@ def observed_steps(log):
                 steps.append([["?"], [[e[1], e[2]]]])   # a start out of nowhere: no model event allows it
         elif e[0] == "A":
             steps.append([["A", e[1], e[2]], []])
+        elif e[0] == "R":
+            steps.append([["R"], []])
         elif e[0] == "F":
             steps.append([["F", e[1], e[2]], [[s[1], s[2]] for s in carry]])
             carry = []
@@ -206,6 +230,8 @@ def c_steps(steps):
             e = f"Arrive {cZ(ev[1])} {cZ(ev[2])}"
         elif ev[0] == "F":
             e = f"Finish {cZ(ev[1])} {cbool(ev[2])}"
+        elif ev[0] == "R":
+            e = "Restart"
         else:
             e = "Finish 0 true"  # group 0 never has a task in flight: rejected by `allowed`
         out.append(f"({e}, {clist(starts, lambda s: f'Start {cZ(s[0])} {cZ(s[1])}')})")
@@ -245,6 +271,9 @@ def gen_case(rng, ngroups=None, nreq=None):
     k = ngroups or rng.randint(1, 3)
     n = nreq or rng.choice([1, 2, 3, 4, 5, 6, 8, 10, 15, 20, 30])
     style = rng.choice(["gate", "mixed", "mixed", "sleep", "burst"])
+    # request VALUES: all distinct, or drawn from a small set so that equal requests (A,A / A,B,A / A,B,B) occur
+    values = rng.choice([None, None, [5], [5, 6], [5, 6], [5, 6, 7]])
+    restarts = rng.random() < 0.3
     steps = []
     sent = 0
     while sent < n:
@@ -257,8 +286,16 @@ def gen_case(rng, ngroups=None, nreq=None):
                 mode = rng.choice(["sleep_ok", "sleep_exc", "instant_ok"])
             else:
                 mode = rng.choice(MODES)
-            steps.append(["req", g, mode, rng.choice([1, 10, 10, 50, 200])])
+            steps.append(["req", g, mode, rng.choice([1, 10, 10, 50, 200])] + ([rng.choice(values)] if values else []))
             sent += 1
+        elif restarts and x < 0.58:
+            # the receive loop restarts (malformed request -> Actor restart after RESTART_DELAY; or stop() + start())
+            if rng.random() < 0.5:
+                steps.append(["bad"])
+                if rng.random() < 0.5:
+                    steps.append(["sleep", rng.choice([1999, 2000, 2001, 2500])])
+            else:
+                steps.append(["stopstart", rng.choice([0, 0, 10, 100])])
         elif x < 0.72:
             steps.append(["rel", rng.randint(1, k)])
         elif x < 0.92:
@@ -271,7 +308,8 @@ def gen_case(rng, ngroups=None, nreq=None):
 def exhaustive_cases(maxlen):
     """Every word up to [maxlen] over a small schedule alphabet (two groups)."""
     alphabet = [["req", 1, "gate_ok", 0], ["req", 1, "gate_exc", 0], ["req", 1, "instant_ok", 0],
-                ["req", 2, "gate_ok", 0], ["rel", 1], ["rel", 2], ["yield", 2]]
+                ["req", 2, "gate_ok", 0], ["rel", 1], ["rel", 2], ["yield", 2], ["stopstart", 0], ["bad"]]
+    pattern = [5, 6, 5, 5, 6, 6, 5, 6]       # request values: A,B,A,A,B,B,... (equal requests, distinct identities)
     for n in range(1, maxlen + 1):
         for w in itertools.product(alphabet, repeat=n):
             if w[0][0] != "req" or not any(s[0] == "req" for s in w):
@@ -279,7 +317,16 @@ def exhaustive_cases(maxlen):
             # `yield` only matters after something was sent or released
             if any(w[i][0] == "yield" and w[i + 1][0] == "yield" for i in range(len(w) - 1)):
                 continue
-            yield {"steps": [list(s) for s in w]}
+            if sum(1 for s in w if s[0] in ("bad", "stopstart")) > 1 or w[-1][0] in ("bad", "stopstart"):
+                continue
+            steps, k = [], 0
+            for s_ in w:
+                if s_[0] == "req":
+                    steps.append(list(s_) + [pattern[k % len(pattern)]])
+                    k += 1
+                else:
+                    steps.append(list(s_))
+            yield {"steps": steps}
 
 
 def boundary_cases():
@@ -293,6 +340,15 @@ def boundary_cases():
         # a request arriving between the end of the task and its completion callback
         {"steps": [R(1, "gate_ok"), Y(), ["rel", 1], R(1, "gate_ok"), Y(1), R(1, "instant_ok")]},
         {"steps": [R(1, "sleep_ok", 10), R(1, "sleep_exc", 10), ["sleep", 10], R(1, "sleep_ok", 10), ["sleep", 10], R(2, "instant_ok")]},
+        # equal request values, distinct identities: A,A / A,B,A / A,B,B
+        {"steps": [R(1, "gate_ok") + [5], Y(), R(1, "gate_ok") + [5], Y(), ["rel", 1], Y()]},
+        {"steps": [R(1, "gate_ok") + [5], Y(), R(1, "gate_ok") + [6], R(1, "gate_ok") + [5], Y(), ["rel", 1], Y()]},
+        {"steps": [R(1, "gate_ok") + [5], Y(), R(1, "gate_ok") + [6], R(1, "gate_ok") + [6], Y(), ["rel", 1], Y()]},
+        # the receive loop restarts while a distribution is in flight and a request is pending
+        {"steps": [R(1, "gate_ok"), Y(), R(1, "gate_ok"), Y(), ["bad"], Y(), R(1, "gate_ok"), ["sleep", 2100], ["rel", 1], Y(), R(1, "instant_ok")]},
+        {"steps": [R(1, "gate_ok"), Y(), R(1, "gate_ok"), Y(), ["stopstart", 10], Y(), R(1, "gate_exc"), Y(), ["rel", 1], Y()]},
+        {"steps": [R(1, "sleep_ok", 50), R(2, "gate_ok"), Y(), ["stopstart", 100], R(1, "instant_ok"), R(2, "gate_ok"), Y()]},
+        {"steps": [R(1, "gate_ok"), Y(), ["bad"], ["rel", 1], R(1, "gate_ok"), R(1, "gate_ok"), ["sleep", 1999], R(1, "instant_ok"), ["sleep", 2]]},
     ]
 
 
@@ -302,9 +358,9 @@ def shrink_case(case):
         yield {"steps": st[:i] + st[i + 1:]}
     for i, s in enumerate(st):
         if s[0] == "req" and s[2] != "gate_ok":
-            yield {"steps": st[:i] + [["req", s[1], "gate_ok", s[3]]] + st[i + 1:]}
+            yield {"steps": st[:i] + [["req", s[1], "gate_ok", s[3]] + s[4:]] + st[i + 1:]}
         if s[0] == "req" and s[1] != 1:
-            yield {"steps": st[:i] + [["req", 1, s[2], s[3]]] + st[i + 1:]}
+            yield {"steps": st[:i] + [["req", 1, s[2], s[3]] + s[4:]] + st[i + 1:]}
 
 
 class DistStream(Stream):
@@ -369,6 +425,35 @@ class DistStream(Stream):
                     busy.discard(ev[1])
         if coalesced:
             out.append("request_waited")
+        # equal values: an arriving request EQUAL to the one in flight / to the pending one (A,A / A,B,A / A,B,B)
+        val = {}
+        k = 0
+        for st_ in case["steps"]:
+            if st_[0] == "req":
+                k += 1
+                val[k] = (st_[1], st_[4] if len(st_) > 4 else ("id", k))
+        infl, pnd = {}, {}
+        for ev, starts in steps:
+            if ev[0] == "A" and not starts:
+                g = ev[1]
+                if g in infl and val[infl[g]] == val[ev[2]]:
+                    out.append("arrival_equals_inflight" + ("_with_other_pending" if g in pnd and val[pnd[g]] != val[ev[2]] else ""))
+                if g in pnd and val[pnd[g]] == val[ev[2]]:
+                    out.append("arrival_equals_pending")
+                pnd[g] = ev[2]
+            for sg, sr in starts:
+                infl[sg] = sr
+                pnd.pop(sg, None)
+            if ev[0] == "F" and not starts:
+                infl.pop(ev[1], None)
+            if ev[0] == "R":
+                if infl:
+                    out.append("restart_while_in_flight" + ("_and_pending" if pnd else ""))
+                else:
+                    out.append("restart_while_idle")
+        for e in log:
+            if e[0] == "R":
+                out.append("restart_by_" + e[1])
         if overwritten:
             out.append("pending_overwritten")
         # arrival between task end and its completion callback
